@@ -86,6 +86,64 @@ impl OF {
         }
         r
     }
+    /// multiplicative inverse (0 for 0)
+    pub fn inv(&self, x: O) -> O {
+        let m = self.m;
+        if !self.ext || x.1 == 0 {
+            return O(invmod(x.0, m), 0);
+        }
+        // (a + b x)(a + b - b x) = a^2 + a b + 2 b^2 for x^2 = x - 2
+        let (a, b) = (x.0, x.1);
+        let norm = addmod(addmod(mulmod(a, a, m), mulmod(a, b, m), m), mulmod(2, mulmod(b, b, m), m), m);
+        let ni = invmod(norm, m);
+        O(mulmod(addmod(a, b, m), ni, m), mulmod(submod(0, b, m), ni, m))
+    }
+    /// value at `a` of the polynomial of degree < xs.len() through (xs[j], ys[j]) (Lagrange)
+    pub fn lagrange_eval(&self, xs: &[O], ys: &[O], a: O) -> O {
+        let mut acc = self.zero();
+        for j in 0..xs.len() {
+            let mut num = self.one();
+            let mut den = self.one();
+            for k in 0..xs.len() {
+                if k != j {
+                    num = self.mul(num, self.sub(a, xs[k]));
+                    den = self.mul(den, self.sub(xs[j], xs[k]));
+                }
+            }
+            acc = self.add(acc, self.mul(ys[j], self.mul(num, self.inv(den))));
+        }
+        acc
+    }
+    /// coefficients (xs.len() of them) of the polynomial through (xs[j], ys[j])
+    pub fn interpolate(&self, xs: &[O], ys: &[O]) -> Vec<O> {
+        let n = xs.len();
+        let mut res = vec![self.zero(); n];
+        // master polynomial Π (X - x_k)
+        let mut master = vec![self.one()];
+        for x in xs {
+            let mut next = vec![self.zero(); master.len() + 1];
+            for (i, c) in master.iter().enumerate() {
+                next[i + 1] = self.add(next[i + 1], *c);
+                next[i] = self.sub(next[i], self.mul(*c, *x));
+            }
+            master = next;
+        }
+        for j in 0..n {
+            // q = master / (X - x_j) by synthetic division
+            let mut q = vec![self.zero(); n];
+            let mut carry = self.zero();
+            for i in (0..n).rev() {
+                carry = self.add(master[i + 1], self.mul(carry, xs[j]));
+                q[i] = carry;
+            }
+            let d = self.horner(&q, xs[j]);
+            let s = self.mul(ys[j], self.inv(d));
+            for i in 0..n {
+                res[i] = self.add(res[i], self.mul(q[i], s));
+            }
+        }
+        res
+    }
     /// a root of unity of order 2^k
     pub fn root_of_unity(&self, k: u32) -> O {
         O(powmod(self.root, 1u128 << (self.two_adicity - k), self.m), 0)
@@ -501,4 +559,20 @@ where
         Err(e) => return verr_str(&e),
     };
     verdict_str(&verifier.verify(&mut channel, evaluations, positions))
+}
+
+/// merge groups of op lines so that every group is spread evenly over the whole run (the model driver is run on
+/// equal-sized pieces of the op file in parallel; expensive lines must not sit in one piece)
+pub fn emit_interleaved(groups: Vec<Vec<String>>, emit: &mut dyn FnMut(String)) {
+    let mut keyed: Vec<(u64, usize, usize, String)> = vec![];
+    for (g, lines) in groups.into_iter().enumerate() {
+        let len = lines.len().max(1) as u64;
+        for (i, l) in lines.into_iter().enumerate() {
+            keyed.push((((i as u64) << 32) / len, g, i, l));
+        }
+    }
+    keyed.sort();
+    for (_, _, _, l) in keyed {
+        emit(l);
+    }
 }
